@@ -54,7 +54,7 @@ def generate(rng, tier):
     qs = [0, 1, 2, 4, 8, 16]
     for q1 in qs:
         for q2 in qs:
-            for (r1, r2) in [(0, 1), (0, 3), (0, 5), (-1, 2), (0, 4), (2, 0), (3, 3)][:: (1 if tier != "quick" else 2)] + [(0, rng.randint(1, 5))]:
+            for (r1, r2) in [(0, 1), (0, 3), (0, 5), (-1, 2), (0, 4), (2, 0), (3, 3)][:: (1 if tier != "quick" else 2)] + [(0, rng.randint(1, 5)), (0, rng.choice([6, 7, 9, 100])), (rng.choice([-3, 0]), rng.choice([6, 8]))]:
                 cases.append({"h": ("E_MotorsOnQ", r1, r2, q1, q2), "family": "E_MotorsOnQ"})
     # class layer: the text a helper emits must not depend on what the object did before (state carried between calls):
     # 1-3 earlier helper calls on the same object, then the judged call; every pair of single-motor requests systematically
